@@ -535,5 +535,7 @@ pub fn main(args: &[String]) {
             }
         }
     }
+    // the repository's own bridges: every generated header / module on its own
+    crate::repo_tests::headers_compile(&mut rep);
     rep.print();
 }
